@@ -69,3 +69,65 @@ def track(text):
     if paths:
         return out, f'{len(paths)} spine path(s) not terminated'
     return out, None
+
+
+def columns(text):
+    """-> (rows, error).  rows = [(line text, [spine index of every cell] or None for a global comment / reference line)] for
+    every non-empty line of a well-formed Humdrum text; the spine index is the position of the header the cell descends
+    from.  Sub-spines join within their own spine only (a run of '*v' that would span two spines is reported as an error:
+    the text alone cannot say where one group ends)."""
+    lines = [l for l in text.split('\n') if l != '']
+    paths = None
+    rows = []
+    for li, l in enumerate(lines):
+        if l.startswith('!!'):
+            rows.append((l, None))
+            continue
+        cells = l.split('\t')
+        if paths is None:
+            if not all(c.startswith('**') for c in cells):
+                return rows, f'line {li}: first line is not a header line'
+            paths = list(range(len(cells)))
+            rows.append((l, list(paths)))
+            continue
+        if len(cells) != len(paths):
+            return rows, f'line {li}: {len(cells)} cells for {len(paths)} live spine paths'
+        rows.append((l, list(paths)))
+        newp = []
+        i = 0
+        while i < len(cells):
+            c, p = cells[i], paths[i]
+            if c == '*^':
+                newp += [p, p]
+            elif c == '*-':
+                pass
+            elif c == '*v':
+                j = i
+                while j + 1 < len(cells) and cells[j + 1] == '*v':
+                    j += 1
+                if j == i:
+                    return rows, f'line {li}: lone *v'
+                if len(set(paths[i:j + 1])) != 1:
+                    return rows, f'line {li}: a run of *v spans two spines (ambiguous without the tree)'
+                newp.append(p)
+                i = j
+            else:
+                newp.append(p)
+            i += 1
+        paths = newp
+    if paths is None:
+        return rows, 'no header line'
+    return rows, None
+
+
+def project(rows, keep):
+    """the text of the given rows with only the cells whose spine index is in `keep`; lines left without cells or with
+    placeholders only are dropped; global comment lines are dropped (the exporter does not write them)"""
+    out = []
+    for l, sp in rows:
+        if sp is None:
+            continue
+        cells = [c for c, s in zip(l.split('\t'), sp) if s in keep]
+        if cells and not all(c in ('.', '*', '') for c in cells):
+            out.append('\t'.join(cells))
+    return '\n'.join(out) + ('\n' if out else '')
